@@ -299,6 +299,7 @@ pub fn run_case(cl: &Clause, case: &Case, verbose: bool) -> CaseRun {
         notes: vec![],
     };
     let mut q_reason = String::new();
+    let mut q_domain_only = false;
     if let Some(fq) = cl.q {
         crate::q::reset();
         let mut ck = Ck::<Q>::new(verbose);
@@ -319,6 +320,7 @@ pub fn run_case(cl: &Clause, case: &Case, verbose: bool) -> CaseRun {
             return out;
         }
         q_reason = format!("Q poisoned ({})", poison_name(poison));
+        q_domain_only = poison == crate::q::P_DOMAIN;
         if verbose {
             eprintln!("  {q_reason}; falling back to Iv");
         }
@@ -344,6 +346,25 @@ pub fn run_case(cl: &Clause, case: &Case, verbose: bool) -> CaseRun {
             "Iv: {amb} ambiguous comparisons, {dom} domain events{}",
             if r.is_err() { " (panicked)" } else { "" }
         ));
+        // The exact engine hit a division by exactly zero / a square root of a
+        // negative number (and nothing else): over a field the computation is
+        // undefined on this input.  The native run shows what that means for the
+        // real type: a non-finite value handed to an oracle is a violation.
+        if q_domain_only {
+            if let Some(fnat) = cl.nat {
+                let mut ckn = Ck::<f64>::new(false);
+                let rn = catch(|| fnat(case, &mut ckn));
+                let bad = ckn.trace.iter().position(|(lo, hi)| !lo.is_finite() || !hi.is_finite());
+                if let Some(i) = bad {
+                    out.verdict = Verdict::Violated(
+                        Engine::Native,
+                        format!("the exact engine divided by zero (or took the square root of a negative number) on this input and the native f64 run produces a non-finite value at oracle value #{i}"),
+                    );
+                } else if let Err(p) = rn {
+                    out.verdict = Verdict::Violated(Engine::Native, format!("the exact engine divided by zero on this input and the native f64 run panicked: {p}"));
+                }
+            }
+        }
         return out;
     }
     out.verdict = match (r, ck.fail.clone()) {
